@@ -1621,12 +1621,20 @@ func (o *ovsdbClient) Get(ctx context.Context, model model.Model) error {
 	primaryDB := o.primaryDB()
 	waitForCacheConsistent(ctx, primaryDB, o.logger, o.primaryDBName)
 	defer primaryDB.cacheMutex.RUnlock()
+	if primaryDB.api == nil {
+		// never connected: there is no cache to look into
+		return ErrNotConnected
+	}
 	return primaryDB.api.Get(ctx, model)
 }
 
 // Create implements the API interface's Create function
 func (o *ovsdbClient) Create(models ...model.Model) ([]ovsdb.Operation, error) {
-	return o.currentAPI().Create(models...)
+	api := o.currentAPI()
+	if api == nil {
+		return nil, ErrNotConnected
+	}
+	return api.Create(models...)
 }
 
 // List implements the API interface's List function
@@ -1634,6 +1642,9 @@ func (o *ovsdbClient) List(ctx context.Context, result interface{}) error {
 	primaryDB := o.primaryDB()
 	waitForCacheConsistent(ctx, primaryDB, o.logger, o.primaryDBName)
 	defer primaryDB.cacheMutex.RUnlock()
+	if primaryDB.api == nil {
+		return ErrNotConnected
+	}
 	return primaryDB.api.List(ctx, result)
 }
 
